@@ -11,7 +11,16 @@ pub fn read_config_file(
     let mut argument_list : Vec<String> = vec![];
     let lines = cursor.lines().into_iter();
     for boxed_line in lines {
+        if boxed_line.is_err() {
+            let message = format!("unable to read line from config: {}", boxed_line.err().unwrap());
+            return Err(message);
+        }
         let line = boxed_line.unwrap();
+        if line.contains('\0') {
+            // environment variable can not contain null character
+            let message = format!("config contains null character: {}", line);
+            return Err(message);
+        }
         let without_comment = strip_comment(line);
         let without_whitespaces = strip_whitespaces(without_comment.to_string());
         let is_table = without_whitespaces.starts_with(SYMBOL.opening_square_bracket);
